@@ -527,6 +527,51 @@ def main():
             tr, _ = render_trait(k, e["d"])
             parts.append("pub mod d%d {\n    use super::*;\n%s}\n" % (k, tr))
             index.append({"k": k, "d": e["d"], "sig": e["sig"]})
+        # inside the antecedent, beyond single methods: temporary-return structures (wrapped associated returns), groups with
+        # their containers and cast variants, a group-wrapped return - "every generated object, group, container and
+        # temporary-return structure ... has a defined C representation"
+        parts.append("""pub mod d8001 {
+    use super::*;
+    #[cglue_trait]
+    pub trait In { fn iv(&self) -> u64; }
+    #[cglue_trait]
+    pub trait T {
+        #[wrap_with_obj(In)]
+        type Own: In + 'static;
+        #[wrap_with_obj_ref(In)]
+        type RefT: In + 'static;
+        #[wrap_with_obj_mut(In)]
+        type MutT: In + 'static;
+        fn own(&self) -> Self::Own;
+        fn r(&self) -> &Self::RefT;
+        fn m(&mut self) -> &mut Self::MutT;
+    }
+}
+pub mod d8002 {
+    use super::*;
+    #[cglue_trait]
+    pub trait Ma { fn a(&self) -> u64; }
+    #[cglue_trait]
+    pub trait Oa { fn b(&self, x: &[u8]) -> Option<u64>; }
+    #[cglue_trait]
+    pub trait Ob { fn c(&mut self, s: &str) -> Result<u64, u64>; }
+    cglue_trait_group!(G, Ma, { Oa, Ob });
+    #[cglue_trait]
+    pub trait T {
+        #[wrap_with_group(G)]
+        type Grp: Ma + 'static;
+        #[wrap_with_group_ref(G)]
+        type GrpRef: Ma + 'static;
+        fn grp(&self) -> Self::Grp;
+        fn grp_ref(&self) -> &Self::GrpRef;
+    }
+}
+""")
+        index.append({"k": 8001, "extra": True, "d": {"recv": "ref", "arg": "none", "ret": "wrapped objects (owned, by reference, by mutable reference)", "ir": False}, "sig": None,
+                      "probe_types": ["crate::d8001::InBox<'static>"]})
+        index.append({"k": 8002, "extra": True, "d": {"recv": "ref", "arg": "none", "ret": "group with two optional traits; group-wrapped returns", "ir": False}, "sig": None,
+                      "probe_types": ["crate::d8002::GBox<'static>", "crate::d8002::GArcBox<'static>", "crate::d8002::GRef<'static>", "crate::d8002::GMut<'static>",
+                                      "crate::d8002::MaBox<'static>", "crate::d8002::ObMut<'static>"]})
         # canaries: shapes that are *not* C-representable leaves (outside C03's antecedent); the FFI lint
         # must fire on them, which shows that the lint is active on these expansions
         parts.append("pub mod d9001 {\n    use super::*;\n    #[cglue_trait]\n    pub trait T {\n        fn m(&self, a: (u8, u8)) -> u8;\n    }\n}\n")
